@@ -94,6 +94,37 @@ Proof.
 Qed.
 Print Assumptions c09_f2_v0_refuted.
 
+(* C09 time zone: the code takes UTC readings of the clock only (time.gmtime() behind IssueInstant / NotBefore,
+   datetime.utcnow() behind both NotOnOrAfter), so the issued Response, the property evaluated on it and the
+   composed acceptance of the receiving side are the same in every time zone of the issuing and of the
+   receiving process.  The correspondence run ties this to the code: the cases are run with the process time zone
+   (TZ + tzset, datetime.now() answering the wall clock of that zone) set to zones on both sides of UTC, with
+   fractional offsets and daylight-saving rules, and must agree with this zone-free model. *)
+Theorem c09_zone_irrelevant : forall z z' x s r so,
+  create (in_zone z x) = create x
+  /\ spec (in_zone z x) (create x) = spec x (create x)
+  /\ sp_accepts (sp_in_zone z' s) r = sp_accepts s r
+  /\ e2e_b (in_zone z x) (sp_in_zone z' s) r so = e2e_b x s r so.
+Proof.
+  intros z z' x s r so. split; [exact (zone_irrelevant z x)|split; [exact (spec_zone_free z x (create x))|split;
+    [exact (sp_zone_irrelevant z' s r)|exact (e2e_zone_free z z' x s r so)]]].
+Qed.
+Print Assumptions c09_zone_irrelevant.
+
+(* ... and the property notices when it does not: a provider that reads the wall clock of its time zone for the
+   issue time or for the expiry (printing it as UTC, e.g. datetime.now() for datetime.utcnow() in
+   time_util.time_in_a_while, or time.localtime() for time.gmtime() in time_util.instant) violates the scope
+   clause on every call it answers in every zone other than UTC; in a UTC process it cannot be told apart *)
+Theorem c09_wall_clock_refuted : forall ic ec x r,
+  (ic, ec) <> (UtcReading, UtcReading) -> zone x <> 0%Z ->
+  create_read ic ec x = Issued r -> ~ spec x (Issued r).
+Proof. intros ic ec x r Hk Hz H [S _]. exact (wall_clock_refuted ic ec x r Hk Hz H S). Qed.
+Print Assumptions c09_wall_clock_refuted.
+
+Theorem c09_wall_clock_hidden_at_utc : forall ic ec x, zone x = 0%Z -> create_read ic ec x = create x.
+Proof. exact wall_clock_same_at_utc. Qed.
+Print Assumptions c09_wall_clock_hidden_at_utc.
+
 (* regenerated-table obligation: the defaults in the source are the documented ones *)
 Theorem c09_defaults :
   sign_response_default = false /\ sign_assertion_default = false /\ encrypt_assertion_default = false
